@@ -75,21 +75,21 @@ def demo_block(readme, wt, orig_wt):
             cont = l.endswith('\\')
     if not any(re.search(r'\bgo (test|run)\b', l) for l in out):
         return None
-    return '\n'.join(out).replace(orig_wt, wt)
+    return re.sub(orig_wt, wt, '\n'.join(out))
 
 
 def cmd_confirm(mid, wt):
     d = f'{SEEDED}/{mid}'
     m = load_meta(d)
     prop = mid.split('-')[0]
-    orig_wt = f'/tmp/seed/{prop}/wt'
+    orig_wt = f'/tmp/seed[0-9]*/{prop}/wt'
     readme = f'{d}/demo/README.md'
     block = demo_block(readme, wt, orig_wt) if os.path.exists(readme) else None
     res = {}
     if block is None:
         res['error'] = 'no runnable block found in demo/README.md'
     else:
-        block = block.replace(f'/tmp/seed/{prop}/out/{mid.split("-")[1]}/demo', f'{d}/demo')
+        block = re.sub(f'/tmp/seed[0-9]*/{prop}/out/{mid.split("-")[1]}/demo', f'{d}/demo', block)
         # keep only command lines; drop `git apply` lines (we do that ourselves) and comments
         lines = [l for l in block.split('\n') if l.strip() and not l.strip().startswith('#') and 'git ' not in l]
         script = 'set +e\nexport GOFLAGS=-mod=mod GOPROXY=off GOSUMDB=off GOTOOLCHAIN=local\n' + '\n'.join(lines) + '\n'
